@@ -13,10 +13,12 @@ PLAN = dict(
              "generated programs: 12 resp. all). One evaluation = one (program, configuration) round trip parse-print-parse-print of the real crates, "
              "or one source-text accept/reject comparison, or one in-place replay; distinct = distinct programs",
         explanation="theorems: every rendering of the printed document at any width/indentation (any choice at each line/line_) lexes to the "
-                    "same token stream; parse (tokens (print p)) = Some p for every parser-shaped p outside the zero-literal defect class, "
-                    "refuted inside it; idempotence as corollary. correspondence per case: model token stream = model lexer on the real output, "
+                    "same token stream; parse (tokens (print p)) = Some p for EVERY parser-shaped p (no guard: the zero-literal defect of `impl Print for IfC` "
+                    "is repaired in /repo and the model follows the repaired code; the old printer is kept for regression lemmas and the repair is proved "
+                    "conservative: same document outside the repaired class); idempotence as corollary. correspondence per case: model token stream = model lexer on the real output, "
                     "model layout (pretty 0.11.3 algorithm) = real output byte for byte, model parser = parse_module on source and on output, "
-                    "and the property itself on the real outputs (p2 = p1, t3 = t2) with failures classified by the closed-form defect predicate renorm",
+                    "and the property itself on the real outputs (p2 = p1, t3 = t2); a failure is labelled with old_renorm, the closed form of the behaviour before the repair, "
+                    "so that a recurrence of the repaired class is named - it is a violation like any other",
         assumptions=["the recursive-descent model of fun.lalrpop accepts the same language with the same trees as the generated LALR(1) parser (checked on every input of the run, positive and negative)",
                      "the `pretty` crate's layout is one of the layouts the theorem quantifies over (its algorithm is modelled in Model/Pretty.v and compared byte for byte)",
                      "file I/O of `scc fmt --inplace` (read before truncate) is replayed, not modelled"],
